@@ -54,6 +54,8 @@ var c20Stmts = []string{
 	`set_tag(host, "h") ; add_key(source, "s")`,
 	`add_key(js, [1, "two", {"k": null}])`, // a field whose text is itself JSON
 	`use('sib.p')`,                           // the other quote style
+	`add_key(pct, "100%d of 5%% %s")`,        // per-cent signs: output is data, never a format
+	`use("onlyhere.p")`,                      // exists only in a directory below the workspace: not part of it
 }
 
 // the sibling is a CRLF file with a multi-line literal across a line break
@@ -76,6 +78,13 @@ func c20Layout(dir, mainSrc string) {
 		_ = os.WriteFile(filepath.Join(dir, n), []byte(s), 0o644)
 	}
 	_ = os.Mkdir(filepath.Join(dir, "sub.p"), 0o755)
+	// directories below the workspace are not part of it: namesakes of the selected script and of the
+	// sibling, and a script that exists only there
+	_ = os.Mkdir(filepath.Join(dir, "old"), 0o755)
+	for n, s := range map[string]string{"main.p": "add_key(from_old_dir, 1)\n", "sib.p": "add_key(sib_from_old_dir, 1)\n", "onlyhere.p": "add_key(only_here, 1)\n", "zz.p": c20Broken} {
+		_ = os.WriteFile(filepath.Join(dir, "old", n), []byte(s), 0o644)
+		_ = os.WriteFile(filepath.Join(dir, "sub.p", n), []byte(s), 0o644)
+	}
 	_ = os.Mkdir(filepath.Join(dir, "store"), 0o755)
 	_ = os.WriteFile(filepath.Join(dir, "store", "sib_source.txt"), []byte(c20Sib), 0o644)
 	if err := os.Symlink(filepath.Join("store", "sib_source.txt"), filepath.Join(dir, "sib.p")); err != nil {
@@ -101,6 +110,9 @@ func c20Inputs() []c20Input {
 		{"text-blank", "text", "  \t\r\n"},
 		{"text-multiline", "text", "first line\nsecond line\n"},
 		{"lp-newline-in-string", "lineprotocol", "multi f1=5i,f1s=\"m5\",message=\"line one\nline two\" 1600000003000000000\n"},
+		// a leading byte-order mark is data like any other character; per-cent signs in every part of a point
+		{"text-bom-percent", "text", "\ufeff95% done, 5%d left"},
+		{"lp-bom-percent", "lineprotocol", "\ufeffc%pu,ho%st=a%20b f1=3i,f1s=\"50%s\",p%c=\"100%\" 1600000004000000000\n"},
 	}
 }
 
@@ -417,7 +429,11 @@ func c20Run(w *run.Worker) {
 				for ci, cf := range cfgs {
 					// quick tier: every script with a rotating subset of (input, config); thorough: all combinations for <=2 statements
 					if !w.Thorough || len(cur) == 3 {
-						if (counter*31+ii*6+ci)%19 != 0 {
+						mod := 23
+						if len(cur) == 3 {
+							mod = 37
+						}
+						if (counter*31+ii*6+ci)%mod != 0 {
 							continue
 						}
 					}
@@ -483,7 +499,7 @@ func init() {
 		Level: "model_checking",
 		Rule: "every script of <=2 (thorough <=3) statements over 16 statements (add_key with int/str/float, set_tag, drop_key, rename, set_measurement literal and from a key with delete, default_time with and without zone, use of a sibling, exit, a run-time error, a load error, cast) " +
 			"x 12 inputs (text, a JSON log line, empty text, blank text, multi-line text; line protocol with a small explicit timestamp, line protocol with tags, without tags, without timestamp, with two points, with leading comment and blank lines, with a newline inside a string field) x {workspace directory with a symlinked .p sibling, a .ppl sibling, two scripts that do not load (neither selected nor used), a non-script file and a directory named like a script; single file} x {json, lineprotocol} x {run, check only}, through the real binary " +
-			"(quick: every script with a rotating 1/19 of the input x configuration grid; thorough: the full grid for <=2 statements); oracle: stdout after the marker parsed back and compared with the same script and input run through the library API (measurement, tags, fields, time), errors reported and no output block, check-only prints nothing",
+			"(quick: every script with a rotating 1/23 of the input x configuration grid; thorough: the full grid for <=2 statements, 1/37 of it for 3 statements); oracle: stdout after the marker parsed back and compared with the same script and input run through the library API (measurement, tags, fields, time), errors reported and no output block, check-only prints nothing",
 		Assumptions: []string{"the influx line-protocol codec is trusted for parsing input and output", "text input: measurement default_name is pinned; time without an explicit timestamp is accepted within the invocation's wall-clock bracket +-2 s"},
 		Run:            c20Run,
 		Replay:         c20Replay,
